@@ -180,6 +180,11 @@ type Ex struct {
 	short bool
 	// bind maps free variables of closures to their bindings when unique.
 	seen map[ssa.Value]bool
+	// deep.go: parameters bound while printing the body of an inlined helper; helpers being inlined; parameters
+	// being resolved upwards
+	bind map[*ssa.Parameter]string
+	inl  map[*ssa.Function]bool
+	up   map[*ssa.Parameter]bool
 }
 
 func (w *World) Expr(v ssa.Value) string {
@@ -250,6 +255,12 @@ func (e *Ex) expr(v ssa.Value, d int) string {
 		}
 		return "const(" + x.Value.ExactString() + ")"
 	case *ssa.Parameter:
+		if s, ok := e.bind[x]; ok {
+			return s
+		}
+		if s, ok := e.paramUp(x, d); ok {
+			return s
+		}
 		return fmt.Sprintf("p%d", paramIndex(x))
 	case *ssa.FreeVar:
 		if b := freeVarBinding(x); b != nil {
@@ -328,8 +339,18 @@ func (e *Ex) expr(v ssa.Value, d int) string {
 		}
 		return "phi{" + strings.Join(parts, "|") + "}"
 	case *ssa.Extract:
+		if c, ok := x.Tuple.(*ssa.Call); ok {
+			if s, ok := e.inlineCall(c, x.Index, d); ok {
+				return s
+			}
+		}
 		return e.expr(x.Tuple, d) + "#" + fmt.Sprint(x.Index)
 	case *ssa.Call:
+		if x.Call.Signature().Results().Len() == 1 {
+			if s, ok := e.inlineCall(x, 0, d); ok {
+				return s
+			}
+		}
 		var args []string
 		for _, a := range callArgs(x) {
 			args = append(args, e.expr(a, d+1))
@@ -355,6 +376,163 @@ func (e *Ex) expr(v ssa.Value, d int) string {
 		return "next(" + e.expr(x.Iter, d+1) + ")"
 	}
 	return fmt.Sprintf("?%T", v)
+}
+
+// paramUp: a parameter of a helper (any function of Tree(focus) other than the focus) prints as the argument at
+// its call sites in Tree(focus) when they all print alike.
+func (e *Ex) paramUp(p *ssa.Parameter, d int) (string, bool) {
+	w := e.w
+	g := p.Parent()
+	if w == nil || w.focus == nil || g == w.focus || !w.transparent(g) || e.up[p] {
+		return "", false
+	}
+	sites := w.sitesIn(w.focus, g)
+	if len(sites) == 0 || w.dynCallable(g) {
+		return "", false
+	}
+	idx := paramIndex(p)
+	if e.up == nil {
+		e.up = map[*ssa.Parameter]bool{}
+	}
+	e.up[p] = true
+	defer delete(e.up, p)
+	out := ""
+	for i, s := range sites {
+		args := s.Common().Args
+		if idx < 0 || idx >= len(args) {
+			return "", false
+		}
+		cur := e.expr(args[idx], d+1)
+		if i > 0 && cur != out {
+			return "", false
+		}
+		out = cur
+	}
+	return out, true
+}
+
+// simpleExpr: v is an expression over parameters, constants, globals, fields, elements and calls, without joins
+// (phis, variables with several stores) and of small size. Only such helper results are printed in place of the
+// call; anything richer keeps the helper's name.
+func simpleExpr(v ssa.Value, n *int) bool {
+	*n++
+	if *n > 24 {
+		return false
+	}
+	v = throughCell(strip(v))
+	switch x := v.(type) {
+	case *ssa.Const, *ssa.Parameter, *ssa.Global, *ssa.Function, *ssa.Builtin:
+		return true
+	case *ssa.Alloc:
+		return true
+	case *ssa.FreeVar:
+		return false
+	case *ssa.Phi:
+		return false
+	case *ssa.UnOp:
+		if x.Op == token.MUL {
+			if _, isAlloc := x.X.(*ssa.Alloc); isAlloc {
+				return false // a variable that throughCell could not reduce to one store
+			}
+		}
+		return simpleExpr(x.X, n)
+	case *ssa.Convert:
+		return simpleExpr(x.X, n)
+	case *ssa.FieldAddr:
+		return simpleExpr(x.X, n)
+	case *ssa.Field:
+		return simpleExpr(x.X, n)
+	case *ssa.IndexAddr:
+		return simpleExpr(x.X, n) && simpleExpr(x.Index, n)
+	case *ssa.Index:
+		return simpleExpr(x.X, n) && simpleExpr(x.Index, n)
+	case *ssa.Lookup:
+		return simpleExpr(x.X, n) && simpleExpr(x.Index, n)
+	case *ssa.Slice:
+		for _, y := range []ssa.Value{x.X, x.Low, x.High, x.Max} {
+			if y != nil && !simpleExpr(y, n) {
+				return false
+			}
+		}
+		return true
+	case *ssa.BinOp:
+		return simpleExpr(x.X, n) && simpleExpr(x.Y, n)
+	case *ssa.Extract:
+		return simpleExpr(x.Tuple, n)
+	case *ssa.TypeAssert:
+		return simpleExpr(x.X, n)
+	case *ssa.Call:
+		if x.Call.IsInvoke() {
+			if !simpleExpr(x.Call.Value, n) {
+				return false
+			}
+		} else if _, isFn := x.Call.Value.(*ssa.Function); !isFn {
+			if _, isB := x.Call.Value.(*ssa.Builtin); !isB {
+				return false
+			}
+		}
+		for _, a := range x.Call.Args {
+			if !simpleExpr(a, n) {
+				return false
+			}
+		}
+		return true
+	}
+	return false
+}
+
+// inlineCall: result idx of a call to a transparent helper prints as the value the helper's success returns
+// yield, when they all yield the same one; the helper's parameters are bound to the arguments of this call.
+func (e *Ex) inlineCall(c *ssa.Call, idx int, d int) (string, bool) {
+	w := e.w
+	if w == nil {
+		return "", false
+	}
+	h := w.helperOf(c)
+	if h == nil || !w.transparent(h) || h == w.focus || e.inl[h] {
+		return "", false
+	}
+	if errorResultIndex(h) == idx {
+		return "", false
+	}
+	val := w.successValue(h, idx)
+	if val == nil || !simpleExpr(val, new(int)) {
+		return "", false
+	}
+	if len(c.Call.Args) != len(h.Params) {
+		return "", false
+	}
+	saved := map[*ssa.Parameter]*string{}
+	bound := make([]string, len(h.Params))
+	for i := range h.Params {
+		bound[i] = e.expr(c.Call.Args[i], d+1)
+	}
+	if e.bind == nil {
+		e.bind = map[*ssa.Parameter]string{}
+	}
+	if e.inl == nil {
+		e.inl = map[*ssa.Function]bool{}
+	}
+	for i, p := range h.Params {
+		if old, ok := e.bind[p]; ok {
+			o := old
+			saved[p] = &o
+		} else {
+			saved[p] = nil
+		}
+		e.bind[p] = bound[i]
+	}
+	e.inl[h] = true
+	s := e.expr(val, d)
+	delete(e.inl, h)
+	for p, old := range saved {
+		if old == nil {
+			delete(e.bind, p)
+		} else {
+			e.bind[p] = *old
+		}
+	}
+	return s, true
 }
 
 func shortQual(p *types.Package) string { return p.Path() }
